@@ -312,4 +312,137 @@ def getPuzzleAndSolution (genOut : Sexp) (parent ph : Bytes) (amount : Nat) : Op
   | .pair l _ => go l
   | .atom _ => none
 
+/-! ## `get_coinspends_for_trusted_block` (run_block_generator.rs) -/
+
+/-- length of the plain serialisation, computed without building it (`serLen x = (Sexp.serialize x).length`,
+Lemmas/Coinspends.lean `serLen_eq`) -/
+def serLen : Sexp → Nat
+  | .atom b => (Sexp.serAtom b).length
+  | .pair l r => 1 + (serLen l + serLen r)
+
+/-- `Program::from_clvm` succeeds iff the plain serialisation has at most 2 000 000 bytes
+(`node_to_bytes` writes through a `LimitedWriter` with that limit) -/
+def fits2MB (x : Sexp) : Bool := serLen x ≤ 2000000
+
+/-- `Program::from_clvm(..).unwrap_or_default()`: the tree itself when it can be serialised within the
+limit, otherwise the default program `80` (nil).  `fits` is the size test (`fits2MB` in the code). -/
+def programOrDefault (fits : Sexp → Bool) (x : Sexp) : Sexp := if fits x then x else Sexp.nil
+
+/-- the second loop of `get_coinspends_for_trusted_block` over the generator's spend list: a spend tuple
+that `extract_n::<5>` cannot take apart is SKIPPED (`continue`); a parent that is not a 32-byte atom or an
+amount `parse_amount` rejects is an error (`none`); the puzzle hash is the tree hash of the reveal; reveal
+and solution go through `programOrDefault`; the loop stops at the first atom (no terminator check) -/
+def coinspendsLoop (fits : Sexp → Bool) : Sexp → Option (List CoinSpendM)
+  | .pair spend nxt =>
+    match extract5 spend with
+    | none => coinspendsLoop fits nxt
+    | some (parent, puzzle, amount, solution, _) =>
+      match parent with
+      | .pair _ _ => none
+      | .atom pb =>
+        if pb.length ≠ 32 then none else
+        match parseAmount amount with
+        | .error _ => none
+        | .ok v =>
+          let pz := programOrDefault fits puzzle
+          let sl := programOrDefault fits solution
+          let cs : CoinSpendM := { parent := pb, puzzleHash := Sexp.treeHash puzzle, amount := v, puzzle := pz, solution := sl,
+                                   puzzleLen := serLen pz, solutionLen := serLen sl }
+          match coinspendsLoop fits nxt with
+          | none => none
+          | some l => some (cs :: l)
+  | .atom _ => some []
+
+/-- `get_coinspends_for_trusted_block`: generator checks, the generator run under MAX_BLOCK_COST_CLVM,
+`next` of its result, then the spend loop; `none` = `Err` -/
+def getCoinspends (fits : Sexp → Bool) (p : Params) (g : GenInput) (genRun : RunRes) : Option (List CoinSpendM) :=
+  if simpleGen p.flags ∧ !g.startsQuote then none else
+  if !generatorNodeOk p.flags g.prog then none else
+  if simpleGen p.flags ∧ g.nrefs > 0 then none else
+  match genRun with
+  | none => none
+  | some (c, out) =>
+    if c > Gen.maxBlockCostClvm then none else
+    match out with
+    | .atom _ => none
+    | .pair allSpends _ => coinspendsLoop fits allSpends
+
+/-- every puzzle reveal and solution of the spend list passes the size test (the harness marker
+`@reveal-over-2MB` is the negation, with `fits2MB`) -/
+def revealsFit (fits : Sexp → Bool) : Sexp → Bool
+  | .pair spend nxt =>
+    (match extract5 spend with
+     | some (_, puzzle, _, solution, _) => fits puzzle && fits solution
+     | none => true) && revealsFit fits nxt
+  | .atom _ => true
+
+/-! ## `SpendBundle::additions` (chia-protocol/src/spend_bundle.rs) -/
+
+/-- clvm-traits `u64::from_clvm` on an atom: `decode_number::<8>(unsigned)`, then `from_be_bytes` -/
+def u64FromClvm (b : Bytes) : Option Nat := (decodeNumber 8 false b).map beVal
+
+/-- the cost budget of `SpendBundle::additions` and what it charges per created coin -/
+def ADDITIONS_BUDGET : Nat := 11000000000
+def ADDITIONS_CREATE_COIN_COST : Nat := 1350000
+
+/-- the condition scan of `SpendBundle::additions` for one spend, threading `cost_left`: the loop ends at
+the first atom; `first(c)` / `rest(c)` fail on an atom; a PAIR in the opcode position is an error; opcode
+atoms of length ≠ 1 and one-byte opcodes other than 51 are skipped; for 51 the arguments are destructured
+as `(Bytes32, (u64, NodePtr))` (any failure is an error), the coin is pushed, then `CREATE_COIN_COST` is
+charged (error when it exceeds what is left).  `none` = `Err` -/
+def bundleScan (parentId : Bytes) : Sexp → Nat → Option (List (Bytes × Bytes × Nat) × Nat)
+  | .pair c nxt, costLeft =>
+    match c with
+    | .atom _ => none
+    | .pair op args =>
+      match op with
+      | .pair _ _ => none
+      | .atom buf =>
+        match buf with
+        | [x] =>
+          if x = 51 then
+            match args with
+            | .pair (.atom ph) (.pair (.atom ab) _) =>
+              if ph.length ≠ 32 then none else
+              match u64FromClvm ab with
+              | none => none
+              | some v =>
+                if ADDITIONS_CREATE_COIN_COST > costLeft then none else
+                match bundleScan parentId nxt (costLeft - ADDITIONS_CREATE_COIN_COST) with
+                | none => none
+                | some (l, left) => some ((parentId, ph, v) :: l, left)
+            | _ => none
+          else bundleScan parentId nxt costLeft
+        | _ => bundleScan parentId nxt costLeft
+  | .atom _, costLeft => some ([], costLeft)
+
+/-- the spend loop of `SpendBundle::additions`; `puz i` is the unbounded run of the i-th puzzle reveal on its
+solution; the parent of the created coins is `coin.coin_id()` of the DECLARED coin -/
+def bundleAddLoop (puz : Nat → RunRes) : List CoinSpendM → Nat → Nat → Option (List (Bytes × Bytes × Nat))
+  | [], _, _ => some []
+  | cs :: rest, i, costLeft =>
+    match puz i with
+    | none => none
+    | some (c, conds) =>
+      if c > costLeft then none else
+      let id := sha256 (cs.parent ++ cs.puzzleHash ++ Gen.coinIdAmount cs.amount)
+      match bundleScan id conds (costLeft - c) with
+      | none => none
+      | some (adds, left) =>
+        match bundleAddLoop puz rest (i + 1) left with
+        | none => none
+        | some l => some (adds ++ l)
+
+/-- `SpendBundle::additions`: created coins as (parent coin id, puzzle hash, amount), in spend order and
+within a spend in condition order -/
+def bundleAdditions (spends : List CoinSpendM) (puz : Nat → RunRes) : Option (List (Bytes × Bytes × Nat)) :=
+  bundleAddLoop puz spends 0 ADDITIONS_BUDGET
+
+/-- no condition of the list has a pair in the opcode position (the harness marker `@pair-opcode` is the
+negation, over all puzzle outputs of the bundle) -/
+def noPairOpcode : Sexp → Bool
+  | .pair c nxt => (match c with | .pair (.pair _ _) _ => false | _ => true) && noPairOpcode nxt
+  | .atom _ => true
+
+
 end ChiaModel.Gn
